@@ -429,3 +429,51 @@ func Ed25519KeyFromSeed(seed []byte) ed25519.PrivateKey {
 	s := sha256.Sum256(seed)
 	return ed25519.NewKeyFromSeed(s[:])
 }
+
+// StrictBase64 decodes RFC 4648 section 4 base64 the strict way: only the 64 alphabet characters,
+// length a multiple of four, '=' only as the last one or two characters of the final quantum.
+// Anything else (blanks, line breaks, URL-safe characters, junk after the padding, missing
+// padding) is an error. Non-zero pad bits are tolerated (RFC 4648 3.5 lets a decoder choose).
+func StrictBase64(s string) ([]byte, error) {
+	const al = "ABCDEFGHIJKLMNOPQRSTUVWXYZabcdefghijklmnopqrstuvwxyz0123456789+/"
+	if len(s)%4 != 0 {
+		return nil, errors.New("ref: base64 length is not a multiple of four")
+	}
+	var out []byte
+	for i := 0; i < len(s); i += 4 {
+		var v [4]int
+		pad := 0
+		for j := 0; j < 4; j++ {
+			c := s[i+j]
+			if c == '=' {
+				if i+4 != len(s) || j < 2 {
+					return nil, errors.New("ref: misplaced base64 padding")
+				}
+				pad++
+				continue
+			}
+			if pad > 0 {
+				return nil, errors.New("ref: base64 data after padding")
+			}
+			k := -1
+			for x := 0; x < 64; x++ {
+				if al[x] == c {
+					k = x
+				}
+			}
+			if k < 0 {
+				return nil, fmt.Errorf("ref: character %q is not in the base64 alphabet", c)
+			}
+			v[j] = k
+		}
+		n := v[0]<<18 | v[1]<<12 | v[2]<<6 | v[3]
+		out = append(out, byte(n>>16))
+		if pad < 2 {
+			out = append(out, byte(n>>8))
+		}
+		if pad < 1 {
+			out = append(out, byte(n))
+		}
+	}
+	return out, nil
+}
